@@ -220,7 +220,16 @@ fn one_history(store: &Arc<FeoxStore>, cfg: &Cfg, seed: u64, hid: u64, explicit:
     for j in 0..nkeys {
         if rng.chance(2, 3) {
             let v = mkval(j, &mut rng, &mut seq);
-            let t = next_ts(&mut rank);
+            let mut t = next_ts(&mut rank);
+            // automatic regime: a third of the initial generations carry an explicit timestamp a day ahead of the
+            // wall clock. Every automatic call of the history must still be accepted (an automatic version exceeds
+            // everything accepted for the key), so a call that stamps its write from anything but the key's clock
+            // shows up as a refusal that no concurrent modification explains
+            if !explicit && rng.chance(1, 3) {
+                let now = std::time::SystemTime::now().duration_since(std::time::UNIX_EPOCH).map(|d| d.as_nanos() as u64).unwrap_or(0);
+                t = Some(now + 86_400_000_000_000 + hid * 1_000 + j as u64);
+                report.count("auto_histories_future_dated_initial", 1);
+            }
             if let Err(e) = store.insert_with_timestamp(&keys[j], &v, t) {
                 report.inconclusive.push(format!("history setup insert failed: {e:?}"));
                 return None;
